@@ -124,7 +124,7 @@ Proof.
   - destruct (build_vote_list (c_fixed c) rmap) as [|[topc topa] l] eqn:B; [discriminate|].
     destruct (threshold _ topa) as [th|]; [|discriminate].
     destruct th.
-    + destruct (parse_dec topc); intros [= <- <-]; simpl; repeat split; auto.
+    + destruct (parse_dec topc); [|discriminate]. intros [= <- <-]; simpl; repeat split; auto.
     + intros [= <- <-]; simpl; repeat split; auto.
   - intros [= <- <-]; simpl; repeat split; auto.
 Qed.
